@@ -9,5 +9,6 @@ out = {}
 for l in open(os.path.join(HERE, "properties.jsonl")):
     pid = json.loads(l)["id"]
     out[pid] = core.source_fingerprint(pid)
+out["_all"] = core.all_source_fingerprint()
 json.dump(out, open(os.path.join(HERE, "harness", "fingerprints.json"), "w"), indent=1, sort_keys=True)
 print("recorded", sum(len(v) for v in out.values()), "file fingerprints")
